@@ -25,7 +25,7 @@ let label_s = function
   | L_cb_interrupt -> "cb_interrupt" | L_cbn_lock -> "cbn_lock" | L_cc_fetch_add -> "cc_fetch_add"
   | L_cw_load -> "cw_load" | L_cw_wait -> "cw_wait" | L_cw_cas -> "cw_cas" | L_dl_load -> "dl_load"
   | L_dl_cas -> "dl_cas" | L_dl_fetch_add -> "dl_fetch_add" | L_dl_fetch_and -> "dl_fetch_and"
-  | L_dl_wload -> "dl_wload" | L_dl_wwait -> "dl_wwait" | L_pc_store -> "pc_store" | L_pc_lock -> "pc_lock"
+  | L_dl_wload -> "dl_wload" | L_dl_wwait -> "dl_wwait" | L_fx_wake -> "fx_wake" | L_pc_store -> "pc_store" | L_pc_lock -> "pc_lock"
   | L_pc_fetch_add -> "pc_fetch_add" | L_pc_fetch_sub -> "pc_fetch_sub" | L_pc_skip_sub -> "pc_skip_sub"
   | L_run -> "run" | L_ret -> "ret" | L_nop -> "nop" | L_poll_enter -> "poll_enter"
   | L_poll_wait_short -> "poll_wait_short" | L_poll_wait_full -> "poll_wait_full" | L_poll_leave -> "poll_leave"
